@@ -485,6 +485,15 @@ pub fn gen_key(rng: &mut Rng, uniform: bool, id: u64) -> Vec<u8> {
 		k.extend_from_slice(&r.next().to_le_bytes());
 	}
 	k.truncate(len);
+	// uniform keys longer than 32 bytes: keys of one family (three consecutive ids) share their first 32 bytes and
+	// differ only behind them, so a hash that ignores the tail of a long uniform key aliases them (seeded C01-c01e)
+	if uniform && len > 32 {
+		let mut f = Rng::new((id / 3).wrapping_mul(0x9e37_79b9_7f4a_7c15) ^ 0x5151);
+		for chunk in k[..32].chunks_mut(8) {
+			let b = f.next().to_le_bytes();
+			chunk.copy_from_slice(&b[..chunk.len()]);
+		}
+	}
 	// embed the id so that keys are pairwise distinct
 	let tag = (id as u32).to_be_bytes();
 	for (i, b) in tag.iter().enumerate() {
